@@ -45,6 +45,7 @@ func forall(lo, hi int, f func(int) bool) bool {
 //@   order Deploy after CurrentCheckpoint
 //@   order CurrentCheckpoint after AbortPendingCheckpoint
 //@   order Deploy after RegisterSourceSplitter
+//@   atcall Start: len(ckpt.GetSourceCheckpoints()) > 0 ==> arg0 == ckpt.SourceCheckpoints[0]
 
 // ---- job status (atomic value modelled as ghost field statusVal)
 //@ type jobStatus
@@ -121,6 +122,18 @@ func forall(lo, hi int, f func(int) bool) bool {
 //@   ensures regInv(r) && has(r.operators.m, ghostOperatorID(op)) && r.operators.m[ghostOperatorID(op)] == op
 //@   ensures forall(func(k string) bool { return k != ghostOperatorID(op) ==> has(r.operators.m, k) == has(old(r.operators.m), k) })
 //@   ensures !has(old(r.operators.m), ghostOperatorID(op)) ==> r.didChange
+//@   ensures has(r.liveness.m, ghostOperatorID(op)) && r.liveness.m[ghostOperatorID(op)] == ghostNow(r.liveness.clock)
+
+// Every registration - the first one and each periodic re-registration, which is the node's
+// heartbeat - refreshes the node's liveness entry (a live node is never purged).
+//@ func Registry.RegisterSourceRunner
+//@   property C15
+//@   requires regInv(r)
+//@   modifies r.didChange, r.liveness.m, r.runners.m, r.runners.list, r.runners.isSorted
+//@   ensures regInv(r) && has(r.runners.m, ghostRunnerID(runner)) && r.runners.m[ghostRunnerID(runner)] == runner
+//@   ensures forall(func(k string) bool { return k != ghostRunnerID(runner) ==> has(r.runners.m, k) == has(old(r.runners.m), k) })
+//@   ensures !has(old(r.runners.m), ghostRunnerID(runner)) ==> r.didChange
+//@   ensures has(r.liveness.m, ghostRunnerID(runner)) && r.liveness.m[ghostRunnerID(runner)] == ghostNow(r.liveness.clock)
 
 //@ func Registry.DeregisterOperator
 //@   property C15
@@ -251,10 +264,34 @@ func forall(lo, hi int, f func(int) bool) bool {
 //@   nosafety
 //@   atcall Deploy: same(arg1.Checkpoints, sliceu.Pick(ckpt.GetOperatorCheckpoints(), opCkptAssignments[i])) && same(arg1.Operators, opIdentities) && same(arg1.SourceRunnerIds, srIDs)
 
+// The snapshot store is told which operators and which source runners must acknowledge a
+// checkpoint, in that order (both lists are []string: swapped, nothing ever completes).
+//@ define idsOfOperators(l, a) := len(l) == len(a.operators) && forall(0, len(l), func(ii_ int) bool { return l[ii_] == ghostOperatorID(a.operators[ii_]) })
+//@ define idsOfRunners(l, a) := len(l) == len(a.sourceRunners) && forall(0, len(l), func(ii_ int) bool { return l[ii_] == ghostRunnerID(a.sourceRunners[ii_]) })
+//@ func Assembly.OperatorIDs
+//@   property C14 C12 C15
+//@   modifies nothing
+//@   ensures idsOfOperators(result, a)
+//@   loop 0:
+//@     invariant len(ids) == len(a.operators) && forall(0, idx_, func(i int) bool { return ids[i] == ghostOperatorID(a.operators[i]) })
+//@ func Assembly.SourceRunnerIDs
+//@   property C14 C12 C15
+//@   modifies nothing
+//@   ensures idsOfRunners(result, a)
+//@   loop 0:
+//@     invariant len(ids) == len(a.sourceRunners) && forall(0, idx_, func(i int) bool { return ids[i] == ghostRunnerID(a.sourceRunners[i]) })
+
+// (the periodic checkpoint: same two lists, same order)
+//@ func Job.start$3
+//@   property C12 C15
+//@   nosafety
+//@   atcall CreateCheckpoint: idsOfOperators(arg0, j.assembly) && idsOfRunners(arg1, j.assembly)
+
 // A savepoint request that was folded into a checkpoint already in flight does NOT start that
 // checkpoint a second time (the source runners would inject a second barrier with the same id).
 //@ func Job.HandleCreateSavepoint
 //@   property C14 C12
 //@   nosafety
 //@   atcall StartCheckpoint: created && err == nil && arg1 == checkpointID
+//@   atcall CreateSavepoint: idsOfOperators(arg0, j.assembly) && idsOfRunners(arg1, j.assembly)
 //@   checks result1 == nil ==> result0 == checkpointID
